@@ -77,7 +77,7 @@ struct Report {
   long checks = 0;       // individual comparisons made
   long nViolations = 0;
   long nDrift = 0;
-  std::unordered_set<std::string> distinct;   // keys of distinct non-trivial cases
+  std::unordered_set<uint64_t> distinct;      // hashes of the keys of distinct non-trivial cases
   std::vector<json> violations;               // first K, full detail
   std::map<std::string, long> violationKinds; // property|what -> count
   std::vector<json> drift;
@@ -87,7 +87,8 @@ struct Report {
   size_t keepViolations = 200;
   size_t keepSamples = 3;
 
-  void NonTrivial(const std::string& key) { if (distinct.size() < 5000000) distinct.insert(key); }
+  static uint64_t Hash(const std::string& s) { uint64_t h = 1469598103934665603ULL; for (unsigned char c : s) { h ^= c; h *= 1099511628211ULL; } return h; }
+  void NonTrivial(const std::string& key) { if (distinct.size() < 20000000) distinct.insert(Hash(key)); }
   void Sample(const json& c) { if (samples.size() < keepSamples) samples.push_back(c); }
   void Count(const std::string& k, long n = 1) { counters[k] += n; }
 
@@ -124,7 +125,7 @@ struct Report {
     for (auto& [k, v] : j["drift_kinds"].items()) driftKinds[k] += v.get<long>();
     for (auto& v : j["samples"]) if (samples.size() < keepSamples) samples.push_back(v);
     for (auto& [k, v] : j["counters"].items()) counters[k] += v.get<long>();
-    if (j.contains("distinct_keys")) for (auto& k : j["distinct_keys"]) distinct.insert(k.get<std::string>());
+    if (j.contains("distinct_keys")) for (auto& k : j["distinct_keys"]) distinct.insert(k.get<uint64_t>());
   }
   void Write(const std::string& path) const {
     if (path.empty()) { std::cout << ToJson().dump() << std::endl; return; }
